@@ -47,6 +47,13 @@ _POW = {}
 
 
 SQRT = z3.Function('sqrt_', z3.RealSort(), z3.RealSort())
+_ROUNDN = {}
+
+
+def round_fn(nd):
+    if nd not in _ROUNDN:
+        _ROUNDN[nd] = z3.Function('roundn%d_' % nd, z3.RealSort(), z3.RealSort())
+    return _ROUNDN[nd]
 
 
 def pow_fn(c):
@@ -267,7 +274,13 @@ class Sym:
                              ROUND0(-s.e) == -n), tag=('round0', s.e, n))
             return Sym(z3.ToReal(n), True)
         if nd != 2:
-            raise PathAbort('round(x, %r) not modelled' % nd)
+            if not isinstance(nd, int) or nd < 0 or nd > 9:
+                raise PathAbort('round(x, %r) not modelled' % (nd,))
+            f = round_fn(nd)
+            r = f(s.e)
+            k = 2 * 10 ** nd
+            EX.assume(z3.And(k * (s.e - r) <= 1, k * (r - s.e) <= 1), tag=('roundn', s.e, r, nd))
+            return Sym(r)
         r = ROUND2(s.e)
         EX.assume(z3.And(200 * (s.e - r) <= 1, 200 * (r - s.e) <= 1), tag=('round2', s.e, r))
         return Sym(r)
